@@ -5,6 +5,7 @@ import XsdataModel.Bind.Parse
 import XsdataModel.Proofs.SamplesComponents
 import XsdataModel.Proofs.SamplesClasses
 import XsdataModel.Proofs.SamplesMapNodup
+import XsdataModel.Proofs.SamplesFields
 
 namespace Props.C13
 open Py Xs.Samples
@@ -109,6 +110,64 @@ theorem json_samples_admitted (e : SEnv) (docs : List (List (Str × JVal))) (nam
   obtain ⟨cs, hcs, hccs⟩ := hc
   obtain ⟨d, _, hd⟩ := mapM_option_mem _ docs css h cs hcs
   exact mapDict_nodup e d name cs hd c hccs
+
+/-- **json_documents_admitted.** The same for whole JSON documents as `process_json_documents` takes
+them: an object, or an array of objects. -/
+theorem json_documents_admitted (e : SEnv) (docs : List JVal) (name : Str) (css : List (List Cls))
+    (h : docs.mapM (fun d => mapJsonDoc e d name) = .ok css) : allAdmitted css.flatten = some true := by
+  apply allAdmitted_true
+  intro c hc
+  simp only [List.mem_flatten] at hc
+  obtain ⟨cs, hcs, hccs⟩ := hc
+  obtain ⟨d, _, hd⟩ := exceptMapM_mem _ docs css h cs hcs
+  exact mapJsonDoc_nodup e d name cs hd c hccs
+
+/-! ### down to the fields of the generated dataclasses -/
+
+/-- **xml_fields_admit_samples.** For any XML documents: run the mappers, `reduce_classes` and the
+ClassAnalyzer handlers that touch occurrences of sample classes (`CalculateAttributePaths`,
+`ProcessAttributeTypes`, `ResetAttributeSequences`, `SanitizeAttributesDefaultValue`,
+`ResetAttributeSequenceNumbers`) and look at the dataclass fields that come out (`classFields`,
+compared field by field with the real generator by `smp.fields`).  Every element occurrence of the
+documents finds its class; unless that class is mixed, every attribute / child name / text of the
+occurrence has a field, a child that repeats has a list field, no `max_occurs` is below and no
+`min_occurs` above what the occurrence has, and every field the occurrence does not use has a
+default — so the constructor call of the parser cannot miss a required argument and no child is
+an unknown property. -/
+theorem xml_fields_admit_samples (e : SEnv) (docs : List El) :
+    ∃ cs, reduceClasses (docs.flatMap (mapElement e)) = some cs ∧
+      ∀ occ ∈ docs.flatMap (mapElement e), ∃ m ∈ cs, m.qname = occ.qname ∧
+        ∀ fs, classFields cs m = some fs →
+          (∀ a ∈ occ.attrs, ∃ f ∈ fs, f.sameAttr a = true ∧ (1 < a.max → f.isList = true) ∧
+            (∀ k, f.maxOccurs = some k → a.max ≤ k) ∧ (∀ k, f.minOccurs = some k → k ≤ a.min)) ∧
+          (∀ f ∈ fs, (∃ a ∈ occ.attrs, f.sameAttr a = true) ∨ f.hasDefault = true) := by
+  have hn : ∀ c ∈ docs.flatMap (mapElement e), NodupKeys c.attrs := by
+    intro c hc
+    simp only [List.mem_flatMap] at hc
+    obtain ⟨d, _, hcd⟩ := hc
+    exact mapElement_nodup e d c hcd
+  obtain ⟨cs, hcs, hadm⟩ := reduceClasses_admits _ hn
+  refine ⟨cs, hcs, ?_⟩
+  intro occ hocc
+  have := hadm occ hocc
+  simp only [admits] at this
+  cases hf : cs.find? (fun m => m.qname = occ.qname) with
+  | none => simp [hf] at this
+  | some m =>
+    simp only [hf] at this
+    refine ⟨m, List.mem_of_find?_eq_some hf, by simpa using List.find?_some hf, ?_⟩
+    intro fs hfs
+    exact classFields_admit cs m fs hfs occ.attrs this
+
+/-- the interleaved sample `a b a b c`: list fields `a`, `b` sharing sequence 1, a single field `c` -/
+example :
+    let e : SEnv := ⟨{ toEnv := Env.ascii, isAlphaNA := fun _ => false, floatRepr := fun s => s }⟩
+    let leaf (n v : String) : El := .mk n.toList (some v.toList) none [] []
+    let doc : El := .mk "r".toList none none [] [leaf "a" "x", leaf "b" "y", leaf "a" "x", leaf "b" "y", leaf "c" "z"]
+    ((reduceClasses (mapElement e doc)).bind fun cs => (cs.head?.bind (classFields cs)).map fun fs =>
+      fs.map fun f => (f.name, f.isList, f.hasDefault, f.sequence))
+      = some [("a".toList, true, true, some 1), ("b".toList, true, true, some 1), ("c".toList, false, false, none)] := by
+  decide
 
 /-- **filter_types_spec.** The types of a merged attr are never empty, carry no `xs:error`, and a
 placeholder (`anyType` / `anySimpleType`, what an empty or null value is inferred as) survives only
@@ -462,6 +521,51 @@ theorem infer_bool_roundtrip (e : SEnv) (be : BEnv) (hpy : be.py = e.py) (s : St
     simp only [deOne, hpy, hv]
     decide
 
+open Xs.Conv in
+/-- **infer_decimal_roundtrip.** A value inferred as `Decimal` is read by the decimal converter of the
+converter model (C05) and `format(d, "f")` writes it back as it was spelled (up to surrounding white
+space) — the strict test is no longer an assumption about the outside world. -/
+theorem infer_decimal_roundtrip (e : SEnv) (s : Str) (q : Str)
+    (hq : (some PyT.decimal, q) ∈ explicitTypes) (h : matchType e s = q) :
+    ∃ d, decimalDeserialize e.py s = some d ∧ decimalSerialize d = e.py.strip s := by
+  have ht := infer_sound e s .decimal q hq h
+  simp only [testStrict, Xs.Conv.test, Xs.Conv.deserialize, deserializeFrom, deserializeOne, atomDeserialize] at ht
+  cases hd : decimalDeserialize e.conv.toEnv s with
+  | none => simp [hd] at ht
+  | some d =>
+    simp only [hd, Option.map_some, Bool.not_true, Bool.false_eq_true, if_false, decide_eq_true_eq] at ht
+    exact ⟨d, rfl, ht.symm⟩
+
+open Xs.Conv in
+/-- **infer_float_roundtrip.** A value inferred as `float` is a literal `float()` accepts, and unless it
+is an infinity or NaN the float converter writes it back as it was spelled; the only function taken
+from outside is `repr` of the parsed float. -/
+theorem infer_float_roundtrip (e : SEnv) (s : Str) (q : Str)
+    (hq : (some PyT.float, q) ∈ explicitTypes) (h : matchType e s = q) :
+    ∃ f, floatDeserialize e.conv s = some f ∧ (f.isInf = true ∨ f.isNan = true ∨ floatSerialize f = e.py.strip s) := by
+  have ht := infer_sound e s .float q hq h
+  simp only [testStrict, Xs.Conv.test, Xs.Conv.deserialize, deserializeFrom, deserializeOne, atomDeserialize] at ht
+  cases hd : floatDeserialize e.conv s with
+  | none => simp [hd] at ht
+  | some f =>
+    simp only [hd, Option.map_some, Bool.not_true, Bool.false_eq_true, if_false] at ht
+    refine ⟨f, rfl, ?_⟩
+    by_cases hi : f.isInf = true
+    · exact Or.inl hi
+    · by_cases hn : f.isNan = true
+      · exact Or.inr (Or.inl hn)
+      · simp only [hi, hn, Bool.or_self, Bool.false_eq_true, if_false, decide_eq_true_eq] at ht
+        exact Or.inr (Or.inr ht.symm)
+
+/-- the live table has entries for `Decimal` and `float`, and the decimal test is really computed:
+`12.50` is a strict Decimal (a float would write `12.5`), `1e5` is not -/
+example :
+    let e : SEnv := ⟨{ toEnv := Env.ascii, isAlphaNA := fun _ => false, floatRepr := fun _ => "12.5".toList }⟩
+    (explicitTypes.any (fun p => p.1 = some PyT.decimal) && explicitTypes.any (fun p => p.1 = some PyT.float)) = true ∧
+    testStrict e .decimal "12.50".toList = true ∧ testStrict e .float "12.50".toList = false ∧
+    testStrict e .decimal "1e5".toList = false := by
+  decide
+
 example : (some PyT.int, Tables.explicitTypesDt.head!.2) ∈ explicitTypes := by decide
 
 /-! ### the generated union reads leniently (finding C13-union-member-order) -/
@@ -482,7 +586,7 @@ theorem union_parse_unfaithful : ¬ union_parse_faithful := by
 
 /-- the witness really is inferred as a string next to an int sample -/
 theorem union_witness_types :
-    let e : SEnv := ⟨Env.ascii, fun _ => false, fun _ => false⟩
+    let e : SEnv := ⟨{ toEnv := Env.ascii, isAlphaNA := fun _ => false, floatRepr := fun s => s }⟩
     testStrict e .int "007".toList = false ∧ testStrict e .int "12".toList = true := by
   decide
 
